@@ -341,6 +341,59 @@ func c10More(l *lean) {
 	}
 	l.def("storeIsConfigurable", "Bool", map[bool]string{true: "true", false: "false"}[configurable], configurable)
 
+	// store.Add: the sequence of write transactions (tl.db.Write calls in source order) with the package functions /
+	// event-list methods each one calls, and what stands between them. The document + transaction index must be
+	// COMMITTED before the event transaction reads the index (a backend need not show a transaction its own writes).
+	var addTxs []string
+	var between []string
+	if fd := funcDecl(files["store.go"], "Add"); fd != nil {
+		seenWrite := 0
+		for _, st := range fd.Body.List {
+			var call *ast.CallExpr
+			if as, ok := st.(*ast.AssignStmt); ok && len(as.Rhs) == 1 {
+				call, _ = as.Rhs[0].(*ast.CallExpr)
+			}
+			if call != nil && c10Src(fsets["store.go"], call.Fun) == "tl.db.Write" {
+				seenWrite++
+				var callees []string
+				seen := map[string]bool{}
+				ast.Inspect(call, func(n ast.Node) bool {
+					if c, ok := n.(*ast.CallExpr); ok {
+						name := ""
+						switch f := c.Fun.(type) {
+						case *ast.Ident:
+							name = f.Name
+						case *ast.SelectorExpr:
+							if x := c10Src(fsets["store.go"], f.X); x == "tl" || x == "currentEventList" {
+								name = f.Sel.Name
+							}
+						}
+						for _, want := range []string{"writeDocument", "readEventList", "contains", "insert", "applyFrom", "writeEventList"} {
+							if name == want && !seen[name] {
+								seen[name] = true
+								callees = append(callees, name)
+							}
+						}
+					}
+					return true
+				})
+				opts := ""
+				if len(call.Args) > 2 {
+					opts = " " + c10Src(fsets["store.go"], call.Args[2])
+				}
+				addTxs = append(addTxs, strings.Join(callees, ",")+opts)
+				continue
+			}
+			if seenWrite == 1 {
+				between = append(between, c10Src(fsets["store.go"], st))
+			}
+		}
+	} else {
+		addTxs = []string{"Add:MISSING"}
+	}
+	l.def("addWriteTransactions", "List String", leanStrList(addTxs), addTxs)
+	l.def("addBetweenTransactions", "List String", leanStrList(between), between)
+
 	// digest of every function the model mirrors (normalised body text): an edit to any of them must be looked at
 	var dig [][2]string
 	for _, spec := range []struct {
